@@ -23,7 +23,7 @@ NS = 'Pycel.Needed.'
 THEOREMS = [NS + t for t in (
     'handlers_spec', 'addr_funcs_spec', 'ref_params_spec',
     'C04_scan_context', 'C04_scan_complete', 'C04_reads_covered',
-    'C04_edges', 'C04_range_members', 'C04_ancestors', 'C04_influence',
+    'C04_edges', 'C04_edges_after_abort', 'C04_range_members', 'C04_ancestors', 'C04_influence',
     'written_satisfiable', 'computed_not_written')]
 DESIGN_REF = 'DESIGN.md §7 C04'
 RULE = ('kind f: one formula (a tree over the reference forms plain / $ / sheet-qualified / quoted sheet / range / '
@@ -50,7 +50,7 @@ ASSUMPTIONS = [
 ]
 TRUSTED = ['modelled, not verified: Python tokenize, openpyxl tokenizer / defined names / worksheet access, networkx']
 REQUIRED_BUCKETS = ['f:plain', 'f:abs', 'f:sheet', 'f:range', 'f:multicolon', 'f:unbounded', 'f:name', 'f:multiarea',
-                    'f:intersection', 'f:union', 'f:rowcol', 'f:computed', 'w']
+                    'f:intersection', 'f:union', 'f:rowcol', 'f:computed', 'w', 'h', 'h:failed-build']
 EXHAUSTIVE = False
 
 SHEETS = ['Sheet1', 'Sheet2', 'Sh 2']
@@ -341,6 +341,11 @@ def cases(tier, rng):
         yield {'k': 'w', 'seed': rng.randrange(10 ** 9), 'n': rng.randint(4, 9)}
     for t in UNBOUNDED_WITNESSES:
         yield t
+    # --- construction histories (orders of building one range under several spellings, builds failing part-way)
+    for t in hist_fixed():
+        yield t
+    for i in range(400 if thorough else 60):
+        yield hist_random(rng)
 
 
 UNBOUNDED_WITNESSES = [
@@ -358,11 +363,13 @@ logging.getLogger('pycel').setLevel(logging.CRITICAL)
 
 
 class Tracer:
-    """records (reader cell, kind, address) for every _C_/_R_ call made by a compiled formula itself"""
+    """records (reader cell, kind, address) for every _C_/_R_ call made by a compiled formula itself that RETURNED a
+    value (a call that raises has read nothing); `done` = formula cells whose evaluation completed"""
 
     def __init__(self, sp):
         self.frames = []
-        self.reads = []
+        self._reads = []
+        self.done = set()
         ev, evr = sp._evaluate, sp._evaluate_range
         sp._evaluate = lambda address: self._call('C', ev, address)
         sp._evaluate_range = lambda address: self._call('R', evr, address)
@@ -371,19 +378,31 @@ class Tracer:
         def _eval(cell, cse_array_address=None):
             self.frames.append([cell, 0])
             try:
-                return inner(cell, cse_array_address)
+                v = inner(cell, cse_array_address)
+                self.done.add(str(cell.address))
+                return v
             finally:
                 self.frames.pop()
         sp._eval = _eval
 
+    @property
+    def reads(self):
+        return [r for r in self._reads if r is not None]
+
     def _call(self, kind, f, address):
         fr = self.frames[-1] if self.frames else None
+        slot = None
         if fr is not None:
             if fr[1] == 0:
-                self.reads.append((str(fr[0].address), kind, str(address)))
+                slot = len(self._reads)
+                self._reads.append((str(fr[0].address), kind, str(address)))
             fr[1] += 1
         try:
             return f(address)
+        except BaseException:
+            if slot is not None:
+                self._reads[slot] = None
+            raise
         finally:
             if fr is not None:
                 fr[1] -= 1
@@ -468,7 +487,7 @@ def graph_oracle(sp, tracer, skip_reader=None):
         needed = list(x.formula.needed_addresses)
         preds = set(g.predecessors(x)) if x in g else set()
         anc = nx.ancestors(g, x) if x in g else set()
-        for d in needed:
+        for d in (needed if reader in tracer.done else ()):
             dn = sp.cell_map.get(d.address)
             if dn is None or dn not in preds:
                 fails.append(f'{reader}: declared precedent {d.address} has no edge to it')
@@ -502,9 +521,10 @@ def graph_oracle(sp, tracer, skip_reader=None):
                     fails.append(f'{reader}: read cell {c.address} (of {addr}) is not an ancestor through '
                                  f'range nodes containing it')
                     break
+    read_ranges = {a for _, k, a in tracer.reads if k == 'R'}
     for key, node in list(sp.cell_map.items()):
-        if isinstance(node, _CellRange) and not node.formula and node in g:
-            preds = set(g.predecessors(node))
+        if isinstance(node, _CellRange) and not node.formula and key in read_ranges:
+            preds = set(g.predecessors(node)) if node in g else set()
             for m in node:
                 mn = sp.cell_map.get(m.address)
                 if mn is None or mn not in preds:
@@ -689,6 +709,164 @@ def run_w(c):
     return out
 
 
+
+# ---------------------------------------------------------------------------------------------------------------
+# kind h: construction histories (several evaluate / set_value calls, builds that fail part-way)
+
+BROKEN = ['=Missing!A1+1', "='[other.xlsx]Sheet1'!A1+1", '=SUM(Missing!A1:A2)', "='No Such'!B2*2"]
+
+
+def hist_fixed():
+    """deterministic histories: construction orders of one range under several spellings, failed builds"""
+    col = {'Sheet1!A1': 1, 'Sheet1!A2': 2, 'Sheet1!A3': 3}
+    out = []
+    # bounded range first, then the unbounded spelling of the same cells, and vice versa; sheet-qualified spellings
+    spell = ['=SUM(A1:A3)', '=SUM(A:A)', '=SUM(Sheet1!A1:A3)', '=SUM($A$1:$A$3)+0', '=SUM(Sheet1!A:A)', '=SUM(A1:A3 A:A)',
+             '=SUM(A:A A1:A3)', '=A1+A2+A3']
+    for f1, f2 in itertools.permutations(spell, 2):
+        cells = dict(col)
+        cells['Sheet1!C1'] = f1
+        cells['Sheet1!D1'] = f2
+        out.append({'k': 'h', 'cells': cells, 'steps': [['ev', 'Sheet1!C1'], ['ev', 'Sheet1!D1'],
+                                                         ['set', 'Sheet1!A2', 20], ['ev', 'Sheet1!D1'],
+                                                         ['ev', 'Sheet1!C1']]})
+    row = {'Sheet1!A1': 1, 'Sheet1!B1': 2, 'Sheet1!C1': 3}
+    for f1, f2 in itertools.permutations(['=SUM(A1:C1)', '=SUM(1:1)', '=SUM(Sheet1!1:1)+1'], 2):
+        cells = dict(row)
+        cells['Sheet1!A3'] = f1
+        cells['Sheet1!B3'] = f2
+        out.append({'k': 'h', 'cells': cells, 'steps': [['ev', 'Sheet1!A3'], ['ev', 'Sheet1!B3'],
+                                                         ['set', 'Sheet1!B1', 20], ['ev', 'Sheet1!B3'],
+                                                         ['ev', 'Sheet1!A3']]})
+    # a range evaluated directly before / after the formulas that use it
+    for order in itertools.permutations([['ev', 'Sheet1!A1:A3'], ['ev', 'Sheet1!A:A'], ['ev', 'Sheet1!C1'],
+                                         ['ev', 'Sheet1!D1']], 4):
+        cells = dict(col)
+        cells['Sheet1!C1'] = '=SUM(A1:A3)'
+        cells['Sheet1!D1'] = '=SUM(A:A)+1'
+        out.append({'k': 'h', 'cells': cells, 'steps': [list(x) for x in order] +
+                    [['set', 'Sheet1!A3', 30], ['ev', 'Sheet1!D1'], ['ev', 'Sheet1!C1']]})
+    # failed builds: a formula that cannot be built, evaluated in one pass with healthy siblings
+    for bad in BROKEN:
+        for top in ('=C1+B1', '=B1+C1', '=SUM(B1:C1)', '=SUM(C1,B1)', '=IF(C1>0,C1,B1)'):
+            cells = {'Sheet1!A1': 1, 'Sheet1!A2': 5, 'Sheet1!C1': '=A1*2', 'Sheet1!B1': bad, 'Sheet1!E1': top,
+                     'Sheet1!F1': '=C1+1', 'Sheet1!G1': '=SUM(A1:A2)+C1'}
+            for later in (['Sheet1!F1'], ['Sheet1!G1', 'Sheet1!F1'], ['Sheet1!C1']):
+                out.append({'k': 'h', 'cells': cells, 'steps': [['ev', 'Sheet1!E1']] + [['ev', a] for a in later] +
+                            [['set', 'Sheet1!A1', 10]] + [['ev', a] for a in later]})
+        cells = {'Sheet1!A1': 1, 'Sheet1!A2': 5, 'Sheet1!C1': '=A1*2', 'Sheet1!B1': bad, 'Sheet1!F1': '=C1+1'}
+        out.append({'k': 'h', 'cells': cells, 'steps': [['evl', ['Sheet1!F1', 'Sheet1!B1', 'Sheet1!C1']],
+                                                         ['ev', 'Sheet1!F1'], ['set', 'Sheet1!A1', 10],
+                                                         ['ev', 'Sheet1!F1']]})
+        out.append({'k': 'h', 'cells': cells, 'steps': [['evl', ['Sheet1!B1', 'Sheet1!F1']],
+                                                         ['ev', 'Sheet1!F1'], ['set', 'Sheet1!A1', 10],
+                                                         ['ev', 'Sheet1!F1']]})
+    return out
+
+
+def hist_random(rng):
+    n = rng.randint(5, 9)
+    c = {'k': 'w', 'seed': rng.randrange(10 ** 9), 'n': n}
+    cells, _ = wb_cells(c)
+    forms = [a for a, v in cells.items() if isinstance(v, str) and v.startswith('=')]
+    values = [a for a in cells if a not in forms]
+    if forms and rng.random() < 0.5:
+        # one formula cell becomes unbuildable, some formula refers to it
+        bad = rng.choice(forms)
+        cells[bad] = rng.choice(BROKEN)
+    if len(values) >= 2 and rng.random() < 0.6:
+        colname = rng.choice('AB')
+        cells['Sheet1!D9'] = f'=SUM({colname}:{colname})'
+        forms.append('Sheet1!D9')
+    steps = []
+    for _ in range(rng.randint(3, 7)):
+        x = rng.random()
+        if x < 0.55 and forms:
+            steps.append(['ev', rng.choice(forms)])
+        elif x < 0.65 and len(forms) > 1:
+            steps.append(['evl', rng.sample(forms, 2)])
+        elif x < 0.75:
+            a, b = rng.choice(values), rng.choice(values)
+            steps.append(['ev', rng.choice([f'{a}:{b.split("!")[1]}', f'Sheet1!{rng.choice("AB")}:{rng.choice("AB")}'])])
+        else:
+            steps.append(['set', rng.choice(values), rng.choice([11, 23, 0, 'q'])])
+    return {'k': 'h', 'cells': cells, 'steps': [st for st in steps if not (st[0] == 'ev' and _reversed(st[1].split('!')[1]))]}
+
+
+def structural_oracle(sp, tracer):
+    """every formula cell whose evaluation completed has an edge from each needed address"""
+    fails = []
+    g = sp.dep_graph
+    for key, node in list(sp.cell_map.items()):
+        if not node.formula or key not in tracer.done:
+            continue
+        try:
+            needed = list(node.needed_addresses)
+        except Exception:   # noqa
+            continue
+        preds = set(g.predecessors(node)) if node in g else set()
+        for d in needed:
+            dn = sp.cell_map.get(d.address)
+            if dn is None or dn not in preds:
+                fails.append(f'{key}: evaluated, but declared precedent {d.address} has no edge to it')
+                break
+    return fails
+
+
+def run_h(c):
+    key = json.dumps(c, sort_keys=True)
+    if key in _CACHE:
+        return _CACHE[key]
+    cells = dict(c['cells'])
+    fails = []
+    out = {'fails': fails, 'gline': None, 'gimpl': None, 'exc': ''}
+    sp, tr = compiler(cells)
+    current = dict(cells)
+    good = []          # formula cells / ranges that evaluated without an exception, in order
+    trace = []
+    for i, st in enumerate(c['steps']):
+        try:
+            if st[0] == 'ev':
+                sp.evaluate(st[1])
+                if st[1] not in good:
+                    good.append(st[1])
+                trace.append('ok')
+            elif st[0] == 'evl':
+                sp.evaluate(list(st[1]))
+                trace.append('ok')
+            else:
+                sp.set_value(st[1], st[2])
+                current[st[1]] = st[2]
+                trace.append('ok')
+        except Exception as e:   # noqa
+            trace.append(type(e).__name__)
+        where = f'after step {i} {st}: '
+        for f in graph_oracle(sp, tr)[:2] + structural_oracle(sp, tr)[:2]:
+            fails.append(where + f)
+        # stale-value oracle: every target that evaluated so far agrees with a fresh compile of the current inputs
+        if good:
+            spf, _ = compiler(current)
+            for a in good:
+                try:
+                    vf = spf.evaluate(a)
+                except Exception:   # noqa
+                    continue
+                try:
+                    v = sp.evaluate(a)
+                except Exception as e:   # noqa
+                    v = f'!{type(e).__name__}'
+                if canon(v) != canon(vf):
+                    fails.append(where + f'{a} = {canon(v)} on the running model, {canon(vf)} on a fresh compile')
+            for f in graph_oracle(sp, tr)[:2] + structural_oracle(sp, tr)[:2]:
+                if where + f not in fails:
+                    fails.append(where + f)
+        if fails:
+            break
+    out['exc'] = ','.join(trace)
+    _CACHE[key] = out
+    return out
+
+
 def impl(c):
     if c['k'] == 'f':
         o = run_f(c)
@@ -696,6 +874,9 @@ def impl(c):
             return '!raise'
         s = 'N:' + ';'.join(o['needed']) + '|R:' + ';'.join(o['reads']) + '|T:' + o['tokens']
         s += '|X:' + o['exc'] + '|G:' + (o['gimpl'] or '-')
+    elif c['k'] == 'h':
+        o = run_h(c)
+        s = 'X:' + o['exc']
     else:
         o = run_w(c)
         s = 'G:' + (o['gimpl'] or '-') + '|X:' + o['exc']
@@ -712,6 +893,8 @@ def model_lines(c):
         lines.append(f"c04 f s:{cps(c['sheet'])} {col} {row} {len(NAMES)} " + ' '.join(names) + ' ' +
                      ' '.join(tree_tokens(c['tree'])))
         o = run_f(c)
+    elif c['k'] == 'h':
+        return ['c04 noop', 'c04 noop']
     else:
         lines.append('c04 noop')
         o = run_w(c)
@@ -764,7 +947,7 @@ def same(impl_out, model_out):
 def governed(c):
     # the property fixes: which reads are covered, which edges exist.  Emission details of the forms it does not
     # speak about (computed references) are code-following.
-    if c['k'] == 'w':
+    if c['k'] in ('w', 'h'):
         return True
     return not any(n[0] == 'f' and n[1].lower() in ('offset', 'indirect', 'subtotal') or
                    (n[0] == 'b' and n[1] == 'colon') for n in nodes(c['tree']))
@@ -781,7 +964,9 @@ def oracles(results):
 
 def _has_unbounded(c):
     import re
-    if c['k'] == 'w':
+    if c['k'] == 'h':
+        texts = [v for v in c['cells'].values() if isinstance(v, str)]
+    elif c['k'] == 'w':
         cells, _ = wb_cells(c)
         texts = [v for v in cells.values() if isinstance(v, str)]
     else:
@@ -798,10 +983,12 @@ def finding_key(c, impl_out, model_out):
 
 
 def nontrivial(c):
-    return c['k'] == 'w' or any(True for _ in leaves(c['tree']))
+    return c['k'] in ('w', 'h') or any(True for _ in leaves(c['tree']))
 
 
 def bucket(c):
+    if c['k'] == 'h':
+        return 'h:failed-build' if any(isinstance(v, str) and v in BROKEN for v in c['cells'].values()) else 'h'
     if c['k'] == 'w':
         return 'w'
     t = c['tree']
